@@ -11,7 +11,9 @@ for name in sorted(os.listdir(os.path.join(V, "seeded"))):
     lv = m.get("lead_verification", {})
     ck = lv.get("check", {})
     res = "caught, concrete input" if ck.get("caught") and ck.get("with_input") else (
-        "caught, no-failing-input-found" if ck.get("caught") else "MISSED")
+        "caught, no-failing-input-found" if ck.get("caught") else (
+            "stale: patch no longer applies to the repaired tree (was caught before; see design/mutants for a rebased twin)"
+            if ck.get("infrastructure_error") else "MISSED"))
     rows.append((name, m.get("property"), m.get("title", ""), ", ".join(m.get("files", [])), m.get("needs", ""),
                  "yes" if lv.get("confirmed") else "no", res, ck.get("wall_s", "")))
 with open(os.path.join(V, "seeded", "INDEX.md"), "w") as f:
@@ -22,4 +24,4 @@ with open(os.path.join(V, "seeded", "INDEX.md"), "w") as f:
     f.write("| id | property | change | files | needs to manifest | confirmed | check result | check wall s |\n|---|---|---|---|---|---|---|---|\n")
     for r in rows:
         f.write("| " + " | ".join(str(x).replace("|", "/").replace("\n", " ") for x in r) + " |\n")
-print(len(rows), "rows;", sum(1 for r in rows if r[6].startswith("caught")), "caught")
+print(len(rows), "rows;", sum(1 for r in rows if r[6].startswith("caught")), "caught;", sum(1 for r in rows if r[6].startswith("stale")), "stale")
